@@ -421,8 +421,11 @@ class C24(C.Check):
         ncorp = len(groups)
         groups += [(c, None, (lvl, nch, wr)) for c, lvl, nch, wr in gen_configs(ctx)]
 
+        import time
+        t0 = time.time()
         for gi, (cfg, corp, plan) in enumerate(groups):
             ensure_ckpt(ctx, cfg, self.wd(ctx, "ckpt%d" % gi))
+        t1 = time.time()
 
         # phase 1: uninterrupted runs -- a plain one (own process) and, for generated configurations,
         # one that takes a snapshot of the directory at every crash point (and one started with resume=True)
@@ -437,6 +440,7 @@ class C24(C.Check):
                         fut[(gi, "r")] = ex.submit(run_batch, ctx, self.wd(ctx, "ref%d_r.json" % gi), [plain_spec(
                             self.wd(ctx, "ref%d_r" % gi), "ref", cfg, True, snap_rule={"level": "kill", "dir": self.wd(ctx, "snapr%d" % gi)})])
             first = {k: f.result()[0] for k, f in fut.items()}
+        t2 = time.time()
         refs = []
         for gi, (cfg, corp, plan) in enumerate(groups):
             ra = first[(gi, "a")]
@@ -485,6 +489,7 @@ class C24(C.Check):
             fr = [ex.submit(run_chain, ctx, wd, groups[gi][0], cps, r0) for gi, cps, r0, wd in real]
             breps = [f.result() for f in fb]
             rreps = [f.result() for f in fr]
+        t3 = time.time()
         results, snapsha = [], {}
         for sl, reps in zip(slices, breps):
             for (gi, cps, r0, sp), rep in zip(sl, reps):
@@ -527,6 +532,8 @@ class C24(C.Check):
             if any(0 < k < len(ref["ops"]) for k, _, _ in cps):
                 nontrivial.add((gi, r0, tuple(cps)))
         bad = C.eval_cases(self.prop, "corr", HEADER, checks)
+        res.notes.append("wall: checkpoint run %.1fs, uninterrupted runs %.1fs, %d snapshot restarts + %d real chains %.1fs, model evaluation in coqc %.1fs"
+                         % (t1 - t0, t2 - t1, len(snaps), len(real), t3 - t2, time.time() - t3))
         for i in bad[:4]:
             d = dict(meta[i])
             # diagnosis: does the observation match the OLD (unfixed) protocol instead?
